@@ -71,6 +71,14 @@ CLAIMED = {
             "Trusted: Lean kernel; fmt_tables translator; CPython's non-ASCII isspace/\\w/lower are a parameter Ext of every theorem; str.split and re.match are hand models tied by correspondence "
             "(all arrangements ≤ 5 wide quick / ≤ 7 thorough × spellings, malformed strings, header rows); inspect's fixed-width path and csv.Sniffer are outside the model.",
             "DESIGN.md §5 C18, notes/C18_notes.md"),
+    'C08': ("Lean 4 totality theorems over the composed evaluator + rule-engine model + EXHAUSTIVE operator×type table correspondence against CPython",
+            "Proof: root_raises_only_expression_error (after the repair no Python exception leaves an expression root), match_total (MerchantEngine.match completes for every rule list, variables, "
+            "lets, tags, fields, transaction and oracle family), failing_match_is_nonmatch + failing_rule_absent (a failing rule ≡ an absent rule, via C01's theorem for arbitrary per-rule evaluation), "
+            "failing_let_binds_none, failing_field_omitted, failing_tag_dropped, failing_variable_skipped; root_leaks_unrepaired is the kernel-checked witness for the code before the D8 repair.",
+            "Trusted: Lean kernel; Model/Val.lean (CPython operator semantics incl. exception classes) and Model/Expr.lean (TransactionEvaluator) are hand models tied by the exhaustive table "
+            "(≈18k cells quick) + random ill-typed streams + full-stack engine runs; oracle primitives answered by CPython; the model's own 'unmodelled' outcome (escaped generators, %-formatting, …) is "
+            "excluded from the totality statement and counted in the evidence. View filters: see C10. parse_generic_csv / CLI survival is decided by the implementation oracle. Defect D8 repaired by a fix: commit.",
+            "DESIGN.md §5 C08"),
 }
 
 PENDING_REASON = "not claimed yet: model/theorems for this property are still being built (see DESIGN.md §7 build order); no check is registered until it is sound"
